@@ -652,6 +652,10 @@ def dynamic_events(case, spec, rng, units=(1.0, 1.0), phys_run=None):
     # mobility: displacement = mobility * elapsed time * resultant (1 unless the inference is adimensional, where it cancels)
     mob = float(spec.get("mobility", 1.0))
     disp_model = {a: (vel[a] * mob * (dt / (sim.scale / beta)) if a in used else 0j) for a in t["pos"]}
+    if spec.get("zero_stamp") is not None and nframes >= 2:
+        # the origin of time is arbitrary: a frame other than the first carries the stamp exactly 0.0
+        j0 = 1 + spec["zero_stamp"] % (nframes - 1)
+        stamps = [s_ - stamps[j0] for s_ in stamps]
     stamps = [alpha * s_ for s_ in stamps]
     frames_t = {}
     for f in range(nframes):
